@@ -168,6 +168,13 @@ def variants(rng, n):
     out.append(("compile-error-duplicate-kinds", {"justfile": "".join("alias %s := r\n%s:\n  [T]\n" % (n, n) for n in names) + "r:\n  [T]\n"}))
     out.append(("compile-error-unexport-export", {"justfile": "".join("unexport %s\nexport %s := 'x'\n" % (n.upper(), n.upper()) for n in names)}))
     out.append(("compile-error-modules-missing", {"justfile": "".join("mod %s\n" % n for n in names)}))
+    # several attributes that are invalid for the item they stand on
+    bad_attrs = "[no-cd]\n[linux]\n[no-exit-message]\n[unix]\n[positional-arguments]\n[no-quiet]\n"
+    out.append(("compile-error-invalid-attributes-alias", {"justfile": "r:\n  [T]\n" + bad_attrs + "alias b := r\n"}))
+    out.append(("compile-error-invalid-attributes-assignment", {"justfile": bad_attrs + "[confirm]\nx := 'a'\nr:\n  [T]\n"}))
+    out.append(("compile-error-invalid-attributes-module", {"justfile": bad_attrs + "[confirm]\nmod zeta\n", "zeta.just": "r:\n  [T]\n"}))
+    out.append(("compile-error-duplicate-attributes", {"justfile": "[no-cd]\n[linux]\n[unix]\n[linux]\n[no-cd]\n[unix]\nr:\n  [T]\n"}))
+    out.append(("compile-error-conflicting-attributes", {"justfile": "[no-cd]\n[working-directory('x')]\n[exit-message]\n[no-exit-message]\nr:\n  [T]\n"}))
     return out
 
 
